@@ -202,10 +202,20 @@ class Program:
                 self.subclasses[bq].add(qn)
         # overriders: base method usr -> set of overriding method usrs
         self.overriders = defaultdict(set)
+        self.method_info = {}       # usr -> header-like dict from class table
         for qn, c in self.classes.items():
             for m in c.get("methods", ()):
                 for o in m.get("ovr", ()):
                     self.overriders[o].add(m["u"])
+                if m["u"] not in self.method_info:
+                    d = {"qn": qn + "::" + m["n"], "n": m["n"], "cls": qn,
+                         "from_class_table": 1}
+                    for k in ("virt", "pure", "const", "ovr"):
+                        if k in m:
+                            d[k] = m[k]
+                    if c.get("tk") == "pattern" or c.get("dependent"):
+                        d["dependent"] = 1
+                    self.method_info[m["u"]] = d
         for u, h in list(self.decls.items()) + list(self.functions.items()):
             for o in h.get("ovr", ()):
                 self.overriders[o].add(u)
@@ -213,7 +223,8 @@ class Program:
         self._anc = {}
 
     def header(self, u):
-        return self.functions.get(u) or self.decls.get(u) or {}
+        return self.functions.get(u) or self.decls.get(u) \
+            or self.method_info.get(u) or {}
 
     def name_of(self, u):
         h = self.header(u)
